@@ -79,6 +79,24 @@ def check(case, results):
                 x.update({"class": "violation", "lifetime": 0, "episode": ei})
             viol.extend(v)
             continue
+        if h.obs0 is not None:
+            # the state right after set-up is the processed initial state: untouched for 'none' (and for Euler's 'auto'),
+            # and whatever the mode an entry whose amount is zero stays zero
+            import numpy as np
+            from .. import si
+            isp_ = phys["sp"]["isp"]
+            fq_ = si.factor(phys["eu"], si.DIM_QUANTITY)
+            X0_ = h.obs0.x * fq_
+            if isp_ == "none" or (isp_ == "auto" and kind == "euler"):
+                if np.any(np.abs(X0_ - m.x0) > 1e-11 * np.abs(m.x0) + 1e-300):
+                    d_ = np.argwhere(np.abs(X0_ - m.x0) > 1e-11 * np.abs(m.x0) + 1e-300)[0]
+                    v.append({"oracle": "C09.initial-record", "detail": "entry (species %d, cell %d) is %r molecules right after "
+                              "set-up, the state says %r" % (d_[0], d_[1], X0_[d_[0], d_[1]], m.x0[d_[0], d_[1]])})
+            elif np.any(X0_[m.x0 == 0] != 0):
+                d_ = np.argwhere((m.x0 == 0) & (X0_ != 0))[0]
+                v.append({"oracle": "C09.initial-record", "detail": "mode %s: entry (species %d, cell %d), whose amount is 0, "
+                          "holds %r molecules right after set-up" % (isp_, d_[0], d_[1], X0_[d_[0], d_[1]])})
+            stats["initial_records_checked"] = stats.get("initial_records_checked", 0) + 1
         traj.check_script_numbers(h.setup, phys, v, "C09")
         traj.sampler_oracle(h, phys, v, stats, "C09", fixed_step=(kind != "gillespie"))
         traj.output_oracle(h, traj.recs_at_factory(h), phys, m.ns, m.nc, v, stats, "C09")
